@@ -45,6 +45,12 @@ def handle : Handler := fun op args =>
       "ok " ++ (if listsEqualD a b then "1" else "0")
   | "c19.listseqd2" => withArgs (do let a ← pList pDbls; let b ← pList pDbls; pure (a, b)) args fun (a, b) =>
       "ok " ++ (if listsEqualDD a b then "1" else "0")
+  | "c19.aliasd" => withArgs pDbls args fun l =>      -- value semantics: the same object twice is the same list twice
+      let e := if listsEqualD l l then "1" else "0"
+      "ok " ++ e ++ " " ++ e ++ " " ++ e
+  | "c19.aliasd2" => withArgs (pList pDbls) args fun l =>
+      let e := if listsEqualDD l l then "1" else "0"
+      "ok " ++ e ++ " " ++ e ++ " " ++ e
   | "c19.combine" => withArgs (do let a ← pInts; let b ← pInts; pure (a, b)) args fun (a, b) =>
       let l := combine a b
       "ok " ++ toString l.length ++ " " ++ showInts l
